@@ -45,6 +45,9 @@ class Report:
     def finish(self, coverage, assumptions, level="model_checking", max_lines=12):
         os.makedirs(REPLAYS, exist_ok=True)
         os.makedirs(EVIDENCE, exist_ok=True)
+        for old in os.listdir(REPLAYS):
+            if old.startswith(self.prop + "-"):
+                os.remove(os.path.join(REPLAYS, old))
         for i, n in sorted(self.known_hits.items()):
             k = self.known[i]
             print("KNOWN-FINDING: property=%s %s [%s %s] (%d cases)" %
